@@ -11,6 +11,7 @@ import ALock.Lemmas.SemWoken
 import ALock.Lemmas.MutexWoken
 import ALock.Lemmas.BarrierWoken
 import ALock.Lemmas.OnceCellWoken
+import ALock.Lemmas.RwLockWoken
 
 /-!
 # C17 — Blocked operations sleep: no busy-waiting
@@ -44,11 +45,11 @@ So a wake-up cycle among pending futures is impossible in the model; the differe
 model's settle (`settled k` compares the number of polls and the wakers called) to the real crate,
 and the harness evaluates the bound `polls ≤ 5·pending` on the implementation at every settle.
 
-That `woken` only ever names pending futures, each at most once (`woken ≤ pending`) is proved for
-the Semaphore, the Mutex, the Barrier and the OnceCell (`C17_sem_woken_le`, `C17_mutex_woken_le`,
-`C17_barrier_woken_le`, `C17_once_woken_le`; bounds in `pending` alone: `C17_sem_pending`,
-`C17_mutex_pending`, `C17_barrier_pending`, `C17_once_pending`); for the RwLock it is not proved (the
-harness's woken set is a set of pending future ids by construction).
+That `woken` only ever names pending futures, each at most once (`woken ≤ pending`) is proved for all
+five primitives (`C17_*_woken_le`: every outstanding wake-up is the owner of its own notified
+listener, listeners have pairwise distinct owners and belong to pending polled futures), which
+gives the bounds in `pending` alone: `C17_sem_pending` 3·p, `C17_mutex_pending` 5·p,
+`C17_rwlock_pending` 7·p, `C17_once_pending` 4·p, `C17_barrier_pending` 3·p.
 Polls are atomic; thread interleavings and parked threads are outside the model.
 -/
 
@@ -413,6 +414,20 @@ theorem C17_rwlock (ops : List Op) {n : Nat} {s' : Sys} (h : Repolls (run {} ops
   have hi := reachable_word ops
   have := repolls_phi hi h
   have := phi_le _ hi
+  omega
+
+/-- outstanding wake-ups never outnumber the registered listeners of the three events together
+(`lock_ops` of the inner mutex, `no_readers`, `no_writer`), which never outnumber the pending
+futures (`Lemmas/RwLockWoken.lean`, invariant `W3`, through every branch of the four polls, of the
+inner `lockPoll`, of the cancellations and of the unlock / conversion paths) -/
+theorem C17_rwlock_woken_le (ops : List Op) :
+    (run {} ops).m.woken.length ≤ (pendingPolled (run {} ops)).length := woken_le ops
+
+/-- **C17 (RwLock), in the number of pending futures alone**: at most `7 × pending` re-polls. -/
+theorem C17_rwlock_pending (ops : List Op) {n : Nat} {s' : Sys} (h : Repolls (run {} ops) n s') :
+    n ≤ 7 * (pendingPolled (run {} ops)).length := by
+  have := C17_rwlock ops h
+  have := C17_rwlock_woken_le ops
   omega
 
 end ALock.RwLock
